@@ -3,9 +3,11 @@ package main
 import (
 	"context"
 	"fmt"
+	"io"
 	"os"
 	"time"
 
+	"github.com/logrange/logrange/api"
 	"github.com/logrange/logrange/pkg/model"
 	"github.com/logrange/logrange/pkg/utils/verifhook"
 	"verifharness/internal/lrsrv"
@@ -13,82 +15,154 @@ import (
 )
 
 // sectionHullRace is the deterministic replay of the schedule-dependent finding F46: the writer is parked between
-// Journal.Write (records become readable with the next flush) and onWriteCIndex (hull / index update); a RANGE query
-// issued in between must still return the readable in-range events.
+// Journal.Write (records become readable with the next flush) and onWriteCIndex (hull / index update).
+//
+//	fresh  RANGE queries issued in between (new cursors: their first status request runs SyncChunks — since fix a2ca477
+//	       it drops the index entry that is older than its chunk and re-derives the hull from the chunk)
+//	held   a server-held cursor that already has a status for the chunk is continued in between (no SyncChunks: the
+//	       status is recomputed from GetRecordsInfo only) and again after the writer has finished
 func sectionHullRace() {
 	sec := res.Section("hullrace", "system-correspondence",
-		"deterministic schedule: batch A (ts 100…) written and indexed; the writer of batch B (ts 200…) is parked at the hook partition.write.beforeCIndex, the harness waits until B is readable (unbounded read returns it), then queries RANGE [200:], [205:207], [:150] — IMPL vs SPEC (filtered unbounded read) vs MODEL (journal updated, chunk index not yet) — releases the writer and queries again; sizes of B from {1, 10, 300}; non-trivial = every query")
+		"deterministic schedule: batch A (ts 100…) written and indexed; the writer of batch B (ts 200…, sizes {1, 10, 300}) is parked at the hook partition.write.beforeCIndex and the harness waits until B is readable. Variant fresh: RANGE [200:], [mid:mid+2], [:150] as new queries. Variant held: a cursor cached by the server (Limit above QueryMaxLimit), opened on RANGE [200:] before B and read to end of data, is continued by ReqId while the writer is parked and once more after the writer has notified the index. IMPL vs SPEC (filtered unbounded read) vs MODEL (journal updated, chunk index not yet / notified); non-trivial = every query or page")
 	if !verifhook.Enabled {
 		res.Note("hullrace: hooks are not compiled in")
 		res.Done(sec)
 		return
 	}
-	for _, nb := range []int{1, 10, 300} {
-		dir := lrsrv.NewDir()
-		srv, err := lrsrv.Start(dir, lrsrv.Opts{MaxChunkSize: 250000, NoRPC: true})
-		if err != nil {
-			res.Note("hullrace: %v", err)
-			os.RemoveAll(dir)
-			continue
+	for _, held := range []bool{false, true} {
+		for _, nb := range []int{1, 10, 300} {
+			runHullRace(sec, nb, held)
 		}
-		h := history{ChunkSize: 250000, Regime: "strict"}
-		r := &sysRun{h: h, srv: srv, ctx: context.Background(), sec: sec, section: "hullrace"}
-		rng := vh.NewRng(int64(nb))
-		r.ask("rw.reset 250000", func(string) {})
-		a := op{Kind: "write", Segs: []seg{{T: 100, N: 10, D: 1}}}
-		ok := r.doWrite(a, rng)
-		arrived := make(chan struct{}, 1)
-		gate := make(chan struct{})
-		verifhook.Set("partition.write.beforeCIndex", func() {
-			arrived <- struct{}{}
-			<-gate
-		})
-		bts := expand([]seg{{T: 200, N: nb, D: 1}})
-		doneW := make(chan struct{})
-		go func() {
-			defer close(doneW)
-			evs := make([]model.LogEvent, len(bts))
-			for i, t := range bts {
-				evs[i] = model.LogEvent{Timestamp: t, Msg: []byte(fmt.Sprintf("%06d", 10+i))}
+	}
+	res.Done(sec)
+}
+
+func runHullRace(sec *vh.Section, nb int, held bool) {
+	dir := lrsrv.NewDir()
+	defer os.RemoveAll(dir)
+	srv, err := lrsrv.Start(dir, lrsrv.Opts{MaxChunkSize: 250000, NoRPC: true})
+	if err != nil {
+		res.Note("hullrace: %v", err)
+		return
+	}
+	defer srv.Stop()
+	h := history{ChunkSize: 250000, Regime: "strict"}
+	r := &sysRun{h: h, srv: srv, ctx: context.Background(), sec: sec, section: "hullrace"}
+	rng := vh.NewRng(int64(nb))
+	r.ask("rw.reset 250000", func(string) {})
+	a := op{Kind: "write", Segs: []seg{{T: 100, N: 10, D: 1}}}
+	ok := r.doWrite(a, rng)
+	in := map[string]interface{}{"variant": map[bool]string{false: "fresh", true: "held"}[held], "batch_b": nb}
+	// held variant: the cursor exists (and holds a status of the chunk) before B is written
+	var req *api.QueryRequest
+	var all []int
+	page := func(step string) {
+		qr, err := srv.Querier.Query(r.ctx, req)
+		if err == io.EOF && qr != nil {
+			err = nil
+		}
+		if err != nil || qr == nil {
+			res.SpecFail(vh.SpecFailure{Section: "hullrace", Kind: "query-error", Input: in, Impl: fmt.Sprint(err), Spec: "page", What: "continuing the held cursor failed"})
+			return
+		}
+		var pg []int
+		for _, e := range qr.Events {
+			pg = append(pg, seqOfMsg(e.Message))
+		}
+		all = append(all, pg...)
+		var spec []int
+		for s, t := range r.allTs {
+			if t >= 200 {
+				spec = append(spec, s)
 			}
-			srv.Parts.Write(context.Background(), tags, &wit{evs: evs}, true)
-		}()
-		parked := false
-		select {
-		case <-arrived:
-			parked = true
-		case <-time.After(5 * time.Second):
-			res.Note("hullrace: the writer did not reach the hook")
 		}
-		verifhook.Set("partition.write.beforeCIndex", nil)
-		if ok && parked {
-			r.allTs = append(r.allTs, bts...)
-			r.batches = append(r.batches, bts)
-			r.full = nil
-			if r.waitFlushed() {
-				r.ask("rw.writenoindex "+modelSpec(bts), func(string) {})
+		pgS, allS, specS := runsOf(pg), runsOf(all), runsOf(spec)
+		res.Eval(sec, fmt.Sprint("held", nb, step))
+		r.ask("c.page 10000", func(ans string) {
+			eq := ans == pgS
+			if !eq {
+				res.Mismatch(vh.Mismatch{Section: "hullrace", Function: "held RANGE cursor, page " + step, Input: in, Impl: pgS, Model: ans})
+			}
+			if allS != specS {
+				finding := ""
+				if eq {
+					finding = "F46"
+				}
+				res.Dist(sec, "loss:held:"+step+":"+finding)
+				res.SpecFail(vh.SpecFailure{Section: "hullrace", Kind: "hidden-event", Input: in, Impl: short(allS), Spec: short(specS), Model: ans, ImplEqModel: eq, Finding: finding,
+					What: fmt.Sprintf("a held RANGE [200:] cursor continued %s delivered %s in total, the filtered unbounded read has %s", step, short(allS), short(specS))})
+			}
+		})
+		nr := qr.NextQueryRequest
+		nr.Limit = 10001
+		req = &nr
+	}
+	if held && ok {
+		req = &api.QueryRequest{Query: rangeQuery(i64p(200), nil), Limit: 10001}
+		r.ask("c.open 200 none", func(string) {})
+		page("before B is written")
+	}
+	arrived := make(chan struct{}, 1)
+	gate := make(chan struct{})
+	verifhook.Set("partition.write.beforeCIndex", func() {
+		arrived <- struct{}{}
+		<-gate
+	})
+	bts := expand([]seg{{T: 200, N: nb, D: 1}})
+	doneW := make(chan struct{})
+	go func() {
+		defer close(doneW)
+		evs := make([]model.LogEvent, len(bts))
+		for i, t := range bts {
+			evs[i] = model.LogEvent{Timestamp: t, Msg: []byte(fmt.Sprintf("%06d", 10+i))}
+		}
+		srv.Parts.Write(context.Background(), tags, &wit{evs: evs}, true)
+	}()
+	parked := false
+	select {
+	case <-arrived:
+		parked = true
+	case <-time.After(5 * time.Second):
+		res.Note("hullrace: the writer did not reach the hook")
+	}
+	verifhook.Set("partition.write.beforeCIndex", nil)
+	released := false
+	if ok && parked {
+		r.allTs = append(r.allTs, bts...)
+		r.batches = append(r.batches, bts)
+		r.full = nil
+		if r.waitFlushed() {
+			r.ask("rw.writenoindex "+modelSpec(bts), func(string) {})
+			if held {
+				page("while the writer is parked before the index notification")
+				close(gate)
+				released = true
+				<-doneW
+				r.waitIdle()
+				r.ask("rw.notify", func(string) {})
+				page("after the writer has notified the index")
+			} else {
 				parkedQueries := []op{{Kind: "query", Lo: i64p(200)}, {Kind: "query", Lo: i64p(200 + int64(nb)/2), Hi: i64p(200 + int64(nb)/2 + 2)}, {Kind: "query", Hi: i64p(150)}}
 				for _, q := range parkedQueries {
 					r.hullRace = true
 					r.doQuery(q, false)
 				}
-			} else {
-				res.Note("hullrace: batch B did not become readable while its writer was parked")
 			}
-		}
-		close(gate)
-		<-doneW
-		srv.Stop()
-		os.RemoveAll(dir)
-		ans, err := vh.Batch(args.Driver, r.lines)
-		if err != nil {
-			res.Note("hullrace: driver: %v", err)
-		}
-		for i := range ans {
-			r.checks[i](ans[i])
+		} else {
+			res.Note("hullrace: batch B did not become readable while its writer was parked")
 		}
 	}
-	res.Done(sec)
+	if !released {
+		close(gate)
+		<-doneW
+	}
+	ans, err := vh.Batch(args.Driver, r.lines)
+	if err != nil {
+		res.Note("hullrace: driver: %v", err)
+	}
+	for i := range ans {
+		r.checks[i](ans[i])
+	}
 }
 
 func sectionJIter(rng *vh.Rng) {}
